@@ -5,6 +5,8 @@ package main
 // log-mutating and committing functions.
 
 import (
+	"fmt"
+	os_ "os"
 	"go/constant"
 	"go/token"
 	"sort"
@@ -293,6 +295,7 @@ func (c *Ctx) canonEnvD(v ssa.Value, e env, d int) string {
 
 // joinLockDir recognises filepath.Join(D, "lock") (under e) and returns D.
 func (c *Ctx) joinLockDir(v ssa.Value, e env) (ssa.Value, bool) {
+	v, e = c.throughObjectField(v, e) // before resolve() leaves this frame through a single-origin field
 	v, e = c.throughPureHelper(v, e)
 	v, e = c.throughObjectField(v, e)
 	call, ok := v.(*ssa.Call)
@@ -312,6 +315,8 @@ func (c *Ctx) joinLockDir(v ssa.Value, e env) (ssa.Value, bool) {
 // throughObjectField: v (under e) is a field of a store object (l.lockPath, l.path) built by a constructor: the
 // expression the constructor stored, read with the constructor's parameters bound to the arguments of the call that
 // built this particular object.
+var dbgPaths = os_.Getenv("ERGO_DBG_PATHS") != ""
+
 func (c *Ctx) throughObjectField(v ssa.Value, e env) (ssa.Value, env) {
 	if u, ok := v.(*ssa.UnOp); ok && u.Op == token.MUL {
 		if fa, isF := u.X.(*ssa.FieldAddr); isF {
@@ -330,6 +335,9 @@ func (c *Ctx) throughObjectField(v ssa.Value, e env) (ssa.Value, env) {
 				os, okO = fieldOfStructValueOrAddr(base, fa.Field, u)
 			} else {
 				os, okO = fieldOrigins(u, 0)
+			}
+			if dbgPaths {
+				fmt.Fprintf(os_.Stderr, "throughObjectField %s in %s: base=%T %v origins=%d ok=%v\n", v, v.Parent(), base, base, len(os), okO)
 			}
 			if okO && len(os) == 1 {
 				ne := env{}
@@ -386,6 +394,7 @@ func (c *Ctx) throughPureHelper(v ssa.Value, e env) (ssa.Value, env) {
 
 // chooserDir recognises chooser(D) (under e) and returns D.
 func (c *Ctx) chooserDir(v ssa.Value, e env) (ssa.Value, bool) {
+	v, e = c.throughObjectField(v, e) // before resolve() leaves this frame through a single-origin field
 	v, e = c.throughPureHelper(v, e)
 	v, e = c.throughObjectField(v, e)
 	call, ok := v.(*ssa.Call)
